@@ -56,6 +56,7 @@ func main() {
 	t2 := time.Now()
 	r.Guard("structure sweep", func() { structureSweep(r) })
 	r.Guard("killed starts", func() { killedStarts(r) })
+	r.Guard("identifier lengths", func() { idLengths(r) })
 	t3 := time.Now()
 
 	// ---- part 1
